@@ -90,6 +90,19 @@ def checkHashTd (kvs okv : List (String × String)) : String := Id.run do
   for (k, what) in [("hb", "bottom-up BDD"), ("ht", "top-down decision-DNNF")] do
     if (lookup okv k).bind parseNat? != some want then
       return s!"FAIL SPEC the semantic hash of the {what} is {lookup okv k}, the weighted sum of the CNF's function is {want}"
+  -- the store that identifies nodes by semantic hash: over the 64-bit field its result must
+  -- denote the CNF (twice in a row on one builder); in any field a result that does denote the
+  -- CNF must hash to the weighted sum
+  let cnfTT := ttString n (cnfFn cs)
+  for k in ["stt", "stt2"] do
+    match lookup okv k with
+    | some tt =>
+      if tt != cnfTT && P == Constants.u64largest then
+        return s!"FAIL SPEC top-down compilation with the hash-identified node store (64-bit field) denotes {tt}, the CNF {cnfTT}"
+    | none => pure ()
+  if lookup okv "stt" == some cnfTT then
+    if let some hs := (lookup okv "hsem").bind parseNat? then
+      if hs != want then return s!"FAIL SPEC the semantic hash of the hash-identified store's result is {hs}, the weighted sum of the CNF's function is {want}"
   return s!"ok nontrivial={if want > 1 then 1 else 0}"
 
 def checkHashLine (kvs : List (String × String)) (rhs : String) : String :=
